@@ -238,4 +238,22 @@ theorem C28_action_digest {A : Type} (HA : Dg × Dg × Nat × List String → A)
     (cmd : Dg) (timeout : Nat) (platform : List String) (w₁ w₂ : Walked) (h : w₁.msg = w₂.msg) :
     HA (cmd, H w₁.msg, timeout, platform) = HA (cmd, H w₂.msg, timeout, platform) := by rw [h]
 
+/-! ### the side conditions of the order-independence theorems are needed (audit additions) -/
+
+/-- `NoOverlap` is necessary, and the excluded shape is one the code produces: for a filegroup with a directory
+    output, action.go appends a `DirectoryNode{Name, Digest}` for the directory AND descends into it
+    (`addChildDirs` → `b.Dir(...)`).  With such an overlap the digest of the root depends on the insertion order
+    (the given digest `X` wins in one order, the computed one in the other). -/
+theorem C28_witness_overlap_order_dependent :
+    (walk C28.sharedLast ser (applyOps [.dirNode [] ⟨[100], some "X"⟩, .file [[100]] ⟨[102], "d1", false⟩])).map
+        (fun w => ser w.msg) ≠
+    (walk C28.sharedLast ser (applyOps [.file [[100]] ⟨[102], "d1", false⟩, .dirNode [] ⟨[100], some "X"⟩])).map
+        (fun w => ser w.msg) := by decide
+
+/-- `ConsOps` (entries with one name agree) is necessary: two files of the same name with different digests are
+    de-duplicated to whichever came first. -/
+theorem C28_witness_inconsistent_duplicates :
+    canon C28.sharedLast {files := [⟨[97], "d1", false⟩, ⟨[97], "d2", false⟩]} ≠
+    canon C28.sharedLast {files := [⟨[97], "d2", false⟩, ⟨[97], "d1", false⟩]} := by decide
+
 end PlzVerif.Props.C28
